@@ -377,7 +377,11 @@ def esrc(e):
     if k == "Bin":
         return f"({esrc(e.l)} {e.op} {esrc(e.r)})"
     if k == "Un":
-        return f"({e.op}{esrc(e.e)})"
+        inner = esrc(e.e)
+        # a prefix operator binds tighter than the postfix deref: `!p^` is `(!p)^`
+        if type(e.e).__name__ == "Deref" or inner.endswith("^"):
+            inner = f"({inner})"
+        return f"({e.op}{inner})"
     if k == "Cast":
         return f"{e.ty.src()}.({esrc(e.e)})"
     if k == "ArrLit":
